@@ -3,7 +3,7 @@ import os
 import tomllib
 
 from .. import facts as F
-from ..facts import walk_body, walk, peel, callee_def, loc
+from ..facts import walk_body, walk, peel, callee_def, loc, callee_name
 from ..census import INT_TYPES, local_of
 
 
@@ -494,3 +494,105 @@ def _raw_bytes(fx, hb, e):
             return True, "Cursor over the vector filled by read_to_end"
         return False, "Cursor over a vector that is %s" % ("also used by %s" % others if others else "not filled by read_to_end")
     return False, "Cursor over a computed value"
+
+
+# --------------------------------------------------------------------------- the loader is handed the reader untouched
+
+def bc_deserialize_plain(fx, A):
+    """(ok, where, why): the BYTES deserializer is a thin forwarder — its only call is Program::from_bytes, on the reader
+    it was given; nothing else looks at (or skips over) input bytes first."""
+    b = fx.body(A.get("cli.bc.deserialize"))
+    if b is None:
+        return None, "", "anchor missing"
+    calls = []
+    for n, ps in walk_body(b):
+        if n.get("k") in ("Call", "MethodCall") and n.get("callee"):
+            cn = callee_name(n) or ""
+            if cn.startswith(("core::panicking", "std::rt::", "core::fmt", "std::fmt")) or "unimplemented" in cn or "panic" in cn:
+                continue
+            calls.append((cn, n))
+    fb = A.get("program.from_bytes")
+    ok = len(calls) == 1 and calls[0][0] == fb
+    why = "calls: %s" % [c for c, _ in calls]
+    if ok:
+        # the reader argument is the function's own parameter
+        n = calls[0][1]
+        arg = peel(n["args"][-1]) if n.get("args") else {}
+        while arg.get("k") in ("AddrOf", "Unary"):
+            arg = peel(arg["e"])
+        params = set()
+        for q in b["params"]:
+            if q.get("k") == "Binding":
+                params.add(q["lid"])
+        ok = arg.get("k") == "Path" and (arg.get("res") or {}).get("k") == "Local" and arg["res"]["lid"] in params
+        why = "Program::from_bytes is applied to %s" % ("the reader it was given" if ok else "something other than the given reader")
+    return ok, loc(b), why
+
+
+# --------------------------------------------------------------------------- the parser's AST constructors are plain
+
+CTOR_VARIANT = {
+    "integer": "Integer", "boolean": "Boolean", "null": "Null", "variable": "Variable", "array": "Array", "object": "Object",
+    "access_variable": "AccessVariable", "access_field": "AccessField", "access_array": "AccessArray",
+    "assign_variable": "AssignVariable", "assign_field": "AssignField", "assign_array": "AssignArray",
+    "function": "Function", "operator": "Function", "call_function": "CallFunction", "call_method": "CallMethod",
+    "call_operator": "CallMethod", "operation": "CallMethod", "top": "Top", "block": "Block", "loop_de_loop": "Loop",
+    "conditional": "Conditional", "print": "Print",
+}
+
+
+def ast_constructors(fx, only=None):
+    """[(ctor fn, ok, why)] — every `AST::<ctor>(..)` helper the grammar's actions call returns, on every path, a node of
+    the kind its name says, built from its parameters (no case analysis on the children, no node dropped or replaced):
+    `begin .. end` is always a Block, `a op b` always a method call, an `if` always a Conditional."""
+    from ..compile_scheme import run_function
+    out = []
+    for name, variant in sorted(CTOR_VARIANT.items()):
+        if only is not None and name not in only:
+            continue
+        path = "parser::AST::" + name
+        b = fx.body(path)
+        if b is None:
+            continue          # constructor not present in this tree (nothing to check)
+        args = [("var", q.get("name") or "p%d" % i) for i, q in enumerate(b["params"])]
+        try:
+            ex, paths = run_function(fx, path, args)
+        except Exception as e:  # noqa
+            out.append((name, False, "cannot execute symbolically (unprovable): %s" % str(e)[:100]))
+            continue
+        vals = [p["out"][1] for p in paths if p["out"][0] == "val"]
+        if not vals:
+            out.append((name, False, "no normal path"))
+            continue
+        bad = [v for v in vals if not (isinstance(v, tuple) and v and v[0] == "ctor" and v[1] == "parser::AST" and v[2] == variant)]
+        if bad:
+            v = bad[0]
+            what = "AST::%s" % v[2] if isinstance(v, tuple) and v and v[0] == "ctor" else "one of its own arguments / another value"
+            out.append((name, False, "%d of %d path(s) do not build AST::%s (e.g. %s): the parser drops or replaces the node, so the tree is not the one the source denotes" % (
+                len(bad), len(vals), variant, what)))
+            continue
+        out.append((name, True, "%d path(s), each builds AST::%s from the arguments" % (len(vals), variant)))
+    return out
+
+
+# --------------------------------------------------------------------------- presuppositions taken from a sibling rule set
+
+def presuppose(ck, fx, cg, sibling, pick, rule, title, floor=1):
+    """Evaluate the sibling property's rule set and report the obligations selected by `pick(oblig)` as ONE obligation of
+    this property (a structural fact this property's statement rests on)."""
+    import importlib
+    from ..core import Check, load_known
+    known = load_known()
+    mod = importlib.import_module("engine.props.%s" % sibling.lower())
+    sub = Check(sibling, ck.tier, ck.seed)
+    try:
+        mod.run(sub, fx, cg, "quick")
+    except Exception as e:  # noqa
+        ck.ob(rule, title, False, "", "%s's rules could not be evaluated: %s: %s" % (sibling, type(e).__name__, e))
+        return
+    sel = [o for o in sub.obligs if pick(o)]
+    bad = [o for o in sel if not o["ok"] and (sibling, "%s|%s" % (o["rule"], o["key"])) not in known]
+    ck.ob(rule, title, not bad, bad[0]["where"] if bad else "",
+          "%d obligation(s) of %s hold" % (len(sel), sibling) if not bad else
+          "%d obligation(s) of %s violated, first: %s %s — %s" % (len(bad), sibling, bad[0]["rule"], bad[0]["key"], bad[0]["detail"][:220]))
+    ck.floor(rule, "%s obligations evaluated for `%s`" % (sibling, title), len(sel), floor)
